@@ -275,6 +275,9 @@ def build_and_run(k: str, rng, ctx, root: Path, fault, res, phase: str = "both")
             metas = [{"id": str(i + 1).encode(), "name": f"snap {i}".encode(), "extra_size": 16} for i in range(2)]
             img, _, _ = wq.build(rng, cluster_bits=cb, size=12 << cb, views=views, version=3, placement="shuffle", snapshots_meta=metas)
             img.write_to(root / "snap.qcow2")
+            # an image whose compressed clusters do not decompress (damaged evidence): reading fails, and that is all that happens
+            bview = wq.make_view(rng, size=8 << cb, cluster_bits=cb, kinds=["C"] * 8, extl2=False, tag=9)
+            wq.build(rng, cluster_bits=cb, size=8 << cb, views=[bview], version=3, corrupt_deflate=True)[0].write_to(root / "bad-deflate.qcow2")
             wvhd.build_dynamic(rng, block_size=4096, nblocks=6, tag=4)[0].write_to(root / "d.vhd")
             wvhdx.build(rng, block_size=1 << 20, sector_size=512, nblocks=3, states=[6, 0, 6], tag=5, checksums=False)[0].write_to(root / "d.vhdx")
             wvdi.build(rng, block_size=4096, nblocks=8, tag=6)[0].write_to(root / "d.vdi")
@@ -346,11 +349,38 @@ def build_and_run(k: str, rng, ctx, root: Path, fault, res, phase: str = "both")
 
                 p = root / rng.choice(["a.vtar", "a.vgz", "big.vgz", "big.vgz"])
 
-                def f():
-                    t = vmtar.open(str(p)) if (rng.random() < 0.5 or p.name == "big.vgz") else vmtar.open(fileobj=open(p, "rb"))
+                def f(hmode=None):
+                    if hmode is None:
+                        t = vmtar.open(str(p))
+                    else:
+                        # a handle the caller opened - in whatever mode the caller's own code happens to use; the archive is read
+                        res["sets"].setdefault("handle_modes", []).append(f"vmtar:{hmode}")
+                        if hmode == "spooled":
+                            import tempfile
+
+                            fh = tempfile.SpooledTemporaryFile(max_size=1 << 30)  # mode "w+b"
+                            fh.write(p.read_bytes())
+                            content = p.read_bytes()
+                        else:
+                            fh = open(p, hmode)
+                            content = None
+                        fh.seek(0)
+                        handles.append(fh)
+                        t = vmtar.open(fileobj=fh)
+                        out = [len(t.extractfile(m).read(1 << 16)) for m in t.getmembers() if m.isreg()]
+                        t.close()
+                        if content is not None:
+                            fh.seek(0)
+                            if fh.read() != content:
+                                res["viol"].append({"what": "a caller-supplied handle was written to", "mech": MECH, "detail": {"entry_point": k, "handle": "SpooledTemporaryFile w+b"}})
+                        return out
                     return [len(t.extractfile(m).read(1 << 16)) for m in t.getmembers() if m.isreg()]
 
-                return call(f)
+                last = call(f)
+                modes = ["rb", "r+b", "a+b", "spooled"] if p.name != "big.vgz" else [rng.choice(["rb", "a+b"])]
+                for hmode in modes if p.exists() else ["rb"]:  # (the harness itself must not create a missing file by opening it "a+b")
+                    last = call(f, hmode)
+                return last
             if k == "hyperv":
                 from dissect.hypervisor.descriptor.hyperv import HyperVFile
 
@@ -382,7 +412,7 @@ def build_and_run(k: str, rng, ctx, root: Path, fault, res, phase: str = "both")
                 from dissect.hypervisor.disk.vmdk import VMDK
 
                 last = None
-                for cls, fn in ((QCow2, "snap.qcow2"), (VHD, "d.vhd"), (VHDX, "d.vhdx"), (VDI, "d.vdi"), (HDS, "d.hds"), (VMDK, "s.vmdk"), (VMDK, "raw-flat.vmdk")):
+                for cls, fn in ((QCow2, "snap.qcow2"), (QCow2, "bad-deflate.qcow2"), (VHD, "d.vhd"), (VHDX, "d.vhdx"), (VDI, "d.vdi"), (HDS, "d.hds"), (VMDK, "s.vmdk"), (VMDK, "raw-flat.vmdk")):
                     hmode = rng.choice(["rb", "r+b", "r+b"])
                     try:
                         fh = FlakyFile(root / fn, rng.randrange(1, 9)) if fault == "ioerror" else open(root / fn, hmode)
